@@ -2,6 +2,7 @@
 //! `verif` feature) on case files and prints one canonical result line per case.
 mod bc;
 mod c07;
+mod meta;
 mod util;
 
 fn main() {
@@ -15,6 +16,7 @@ fn main() {
     match args[1].as_str() {
         "c07" => c07::run(&lines),
         "bc" => bc::run(&lines),
+        "meta" => meta::run(&lines),
         other => {
             eprintln!("unknown property {}", other);
             std::process::exit(2);
